@@ -364,6 +364,9 @@ def _find_non_global_names(nodes):
             # We only want to check foo in foo.bar
             if node.type == 'trailer' and node.children[0] == '.':
                 continue
+            # The foo in bar(foo=3) is not a variable.
+            if node.type == 'argument' and len(children) == 3 and children[1] == '=':
+                children = children[2:]
 
             yield from _find_non_global_names(children)
 
